@@ -38,7 +38,8 @@ ASSUMPTIONS = [
 REQUIRED = ["op:lookup", "op:lookup_overlapping", "op:lookup_bridging_query", "op:membership_area",
             "op:membership_region_link", "op:definition_cdses", "op:build_order_compare",
             "monitor:Record.get_cds_features_within_location",
-            "class:origin-spanning-gene-inside-one-part-query-not-at-0", "class:layout-scaled-to-megabase-record"]
+            "class:origin-spanning-gene-inside-one-part-query-not-at-0", "class:layout-scaled-to-megabase-record",
+            "op:lookup_window_before_record_start"]
 
 
 def _names(features):
@@ -52,8 +53,13 @@ def oracle_lookup(ctx, record, query, with_overlapping, result, case=None):
     if len(query.parts) > 1:
         ctx.count("op:lookup_bridging_query")
     if query.start < 0:
-        ctx.count("skipped:negative-query")
-        return
+        # a window reaching before the start of the record (a stretch extended by some bases near the record start):
+        # nothing exists there, the window counts from the first base
+        ctx.count("op:lookup_window_before_record_start")
+        if len(query.parts) > 1:
+            ctx.count("skipped:negative-compound-query")
+            return
+        query = FeatureLocation(0, max(1, int(query.end)), query.strand)
     everything = record.get_cds_features()
     if with_overlapping:
         expected = [c for c in everything if ring.overlap(query, c.location)]
@@ -444,6 +450,8 @@ def random_lookup(ctx, count):
             gene = G.to_case(G.mk([(a1, a2), (b1, b2)], extra.choice([1, -1])))
             if gene not in genes:
                 genes.append(gene)
+        if extra.random() < 0.5:
+            queries.append(FeatureLocation(-extra.randrange(1, 12), extra.randrange(1, length + 1), 1))
         # one-part queries just around the exons of a gene whose intron holds the origin: the gene lies inside a
         # location that neither starts at 0 nor crosses the origin
         for gene in genes:
